@@ -88,6 +88,20 @@ func corpus(thorough bool) [][]bqlm.Clause {
 			}
 		}
 	}
+	// two clauses, one extraction modifier on the FIRST clause (state kept by the clause
+	// hooks between clauses shows up as a dependence on the clause order)
+	for i := range rc {
+		if !thorough && i%3 != 0 {
+			continue
+		}
+		for j := range rc {
+			for _, named := range bqlm.Namings([]bqlm.Clause{rc[i], rc[j]}) {
+				for _, m := range bqlm.ModifiersFor(named[0]) {
+					out = append(out, []bqlm.Clause{bqlm.WithModifier(named[0], m, "?m0"), named[1]})
+				}
+			}
+		}
+	}
 	if thorough {
 		// three-clause chains over a smaller vocabulary
 		var small []bqlm.Clause
